@@ -35,6 +35,8 @@ var defs = []event{
 	{"def", "caller", "func wf() int { return f(3) + 1 }", "func"},
 	{"def", "ptrmethod", "type P struct{ N int }\n\nfunc (p *P) Inc() int {\n\tp.N++\n\treturn p.N\n}\n\nvar pp = &P{7}", ""},
 	{"def", "globalvar", "var g = 5\n\nfunc setG(v int) { g = v }", ""},
+	{"def", "selectfn", "func sel() int {\n\tch := make(chan int, 1)\n\tch <- 5\n\tselect {\n\tcase v := <-ch:\n\t\treturn v\n\t}\n}", ""},
+	{"def", "rangefn", "func rng() int {\n\tch := make(chan int, 2)\n\tch <- 1\n\tch <- 2\n\tclose(ch)\n\ts := 0\n\tfor v := range ch {\n\t\ts += v\n\t}\n\treturn s\n}", ""},
 	{"def", "hostfunc", "", "func"},       // host obtains a wrapper of f
 	{"def", "hostclosure", "", "closure"}, // host obtains a wrapper of cl
 	{"def", "hostmethodvalue", "", "methodvalue"},
@@ -52,6 +54,8 @@ var uses = []event{
 	{"use", "g = 7;g", "g = 7 ;; g", "globalvar"},
 	{"use", "g++;g", "g++ ;; g", "globalvar"},
 	{"use", "g", "g", "globalvar"},
+	{"use", "sel()", "sel()", "selectfn"},
+	{"use", "rng()", "rng()", "rangefn"},
 	{"hostuse", "host f(2)", "", "hostfunc"},
 	{"hostuse", "host cl()", "", "hostclosure"},
 	{"hostuse", "host mv(2)", "", "hostmethodvalue"},
@@ -364,7 +368,7 @@ func main() {
 	r.Set("distinct_nontrivial", len(res.Sets["obs"]))
 	r.Set("max_history_length", maxLen)
 	r.Set("exhaustive", true)
-	r.Set("rule", "all histories define* ; (use | cancelled-eval)* with <= 3 definitions out of 10 kinds (function, method+var, closure in var, method value, pointer-receiver method, caller, package variable + setter, host wrappers of function / closure / method value), uses through Eval (calls, and statements that allocate no new package-level slot followed by a read) and from the host, 5 cancelled-evaluation kinds (busy loops cancelled at operation 30 by the step hook, blocked receive cancelled at the receive and at the first operation), total length <= the bound, containing a use after a cancelled evaluation; states = distinct reference observation vectors")
+	r.Set("rule", "all histories define* ; (use | cancelled-eval)* with <= 3 definitions out of 12 kinds (function, method+var, closure in var, method value, pointer-receiver method, caller, package variable + setter, functions using select / range over a channel, host wrappers of function / closure / method value), uses through Eval (calls, and statements that allocate no new package-level slot followed by a read) and from the host, 5 cancelled-evaluation kinds (busy loops cancelled at operation 30 by the step hook, blocked receive cancelled at the receive and at the first operation), total length <= the bound, containing a use after a cancelled evaluation; states = distinct reference observation vectors")
 	r.Assumptions = []string{"oracle = the same history without the cancelled evaluations", "the cancelled evaluation's goroutine is allowed to finish before the next event (waits for the goroutine count to settle, not an oracle)"}
 	for _, i := range []int{0, len(hs) / 2, len(hs) - 1} {
 		r.Sample(hs[i].name())
